@@ -63,13 +63,14 @@ func NewChecker(ctx context.Context, metrics *Store, threshold float64) *Checker
 func (mc *Checker) CheckPeers(peers []peer.ID) error {
 	for _, name := range mc.metrics.MetricNames() {
 		for _, peer := range peers {
-			for _, metric := range mc.metrics.PeerMetricAll(name, peer) {
-				if mc.FailedMetric(metric.Name, peer) {
-					err := mc.alert(peer, metric.Name)
-					if err != nil {
-						return err
-					}
-				}
+			// Check every (peer, metric) once, no matter how
+			// many samples we hold, and only when we hold any.
+			if mc.metrics.PeerLatest(name, peer) == nil {
+				continue
+			}
+			err := mc.check(peer, name)
+			if err != nil {
+				return err
 			}
 		}
 	}
@@ -80,14 +81,31 @@ func (mc *Checker) CheckPeers(peers []peer.ID) error {
 // and no alert has been sent before.
 func (mc *Checker) CheckAll() error {
 	for _, metric := range mc.metrics.AllMetrics() {
-		if mc.FailedMetric(metric.Name, metric.Peer) {
-			err := mc.alert(metric.Peer, metric.Name)
-			if err != nil {
-				return err
-			}
+		err := mc.check(metric.Peer, metric.Name)
+		if err != nil {
+			return err
 		}
 	}
 
+	return nil
+}
+
+// check alerts about a failed metric. When the metric is not failed (it has
+// been renewed), it forgets about previous alerts so that a later failure
+// is reported again.
+func (mc *Checker) check(pid peer.ID, metricName string) error {
+	if mc.FailedMetric(metricName, pid) {
+		return mc.alert(pid, metricName)
+	}
+
+	mc.failedPeersMu.Lock()
+	if failedMetrics, ok := mc.failedPeers[pid]; ok {
+		delete(failedMetrics, metricName)
+		if len(failedMetrics) == 0 {
+			delete(mc.failedPeers, pid)
+		}
+	}
+	mc.failedPeersMu.Unlock()
 	return nil
 }
 
